@@ -151,6 +151,7 @@ public:
             promise<T> p = std::move(_awaiters.front());
             _awaiters.pop();
             lk.unlock();
+            COCLS_VERIF_POINT(q_push_unlocked);
             return p(std::forward<Args>(args)...);
         } else {
             _queue.emplace(std::forward<Args>(args)...);
@@ -196,6 +197,7 @@ public:
      */
     future<T> pop() {
         return [&](auto promise) {
+            COCLS_VERIF_POINT(q_pop_entry);
             std::unique_lock lk(_mx);
             if (_queue.empty()) {
                 _awaiters.emplace(std::move(promise));
@@ -226,6 +228,7 @@ public:
         promise<T> p = std::move(_awaiters.front());
         _awaiters.pop();
         lk.unlock();
+        COCLS_VERIF_POINT(q_unblock_unlocked);
         return p.set_exception(e);        
     }
 
@@ -277,6 +280,7 @@ public:
             promise<T> p = std::move(this->_awaiters.front());
             this->_awaiters.pop();
             lk.unlock();
+            COCLS_VERIF_POINT(lq_push_unlocked);
             p(std::forward<Args>(args)...);
             return future<void>::set_value();
         } else {
@@ -313,6 +317,7 @@ public:
                     auto p = std::move(front.second);
                     _blocked.pop();
                     lk.unlock();
+                    COCLS_VERIF_POINT(lq_pop_unlocked);
                     p();
                 } else {
                     lk.unlock();
@@ -340,6 +345,7 @@ public:
         auto front = std::move(_blocked.front());
         _blocked.pop();
         lk.unlock();
+        COCLS_VERIF_POINT(lq_unblock_unlocked);
         return front.second.set_exception(e);
     }
 
